@@ -43,10 +43,11 @@ func (tl TargetList) Dispose() {
 }
 
 type LoadBalancer struct {
-	healthy TargetList
-	all     TargetList
-	index   int
-	lock    sync.Mutex
+	healthy   TargetList
+	all       TargetList
+	index     int
+	lock      sync.Mutex
+	successor *LoadBalancer
 }
 
 func NewLoadBalancer(targets TargetList) *LoadBalancer {
@@ -108,6 +109,16 @@ func (lb *LoadBalancer) Dispose() {
 	lb.all.Dispose()
 }
 
+// ReplaceWith records the load balancer that has taken over from this one.
+// Requests that resolved this load balancer before the routing table was
+// switched claim their target from the successor instead.
+func (lb *LoadBalancer) ReplaceWith(successor *LoadBalancer) {
+	lb.lock.Lock()
+	defer lb.lock.Unlock()
+
+	lb.successor = successor
+}
+
 func (lb *LoadBalancer) DrainAll(timeout time.Duration) {
 	var wg sync.WaitGroup
 	wg.Add(len(lb.all))
@@ -145,6 +156,11 @@ func (lb *LoadBalancer) TargetStateChanged(target *Target) {
 
 func (lb *LoadBalancer) claimTarget(req *http.Request) (*Target, *http.Request, error) {
 	lb.lock.Lock()
+	if lb.successor != nil {
+		successor := lb.successor
+		lb.lock.Unlock()
+		return successor.claimTarget(req)
+	}
 	defer lb.lock.Unlock()
 
 	target := lb.nextTarget()
